@@ -19,7 +19,7 @@ import subprocess
 from concurrent.futures import ThreadPoolExecutor
 
 from qsim import core, entries, workload
-from qsim.clocks import VirtualMonotonic, fmt_ts
+from qsim.clocks import VirtualMonotonic, fmt_ts, parse_ts
 from qsim.threads import Baton
 
 PROPERTIES = ["C12"]
@@ -883,8 +883,14 @@ def plan(prop, tier, seed):
             if r.random() < 0.7:
                 e = dict(r.choice(pool))
                 v = r.random()
-                if v < 0.4:
+                if v < 0.25:
                     e["ts"] = fmt_ts(workload.ref_time(r, 2016, 2043))
+                elif v < 0.45:
+                    # the same text on the SAME day at another hour (an answer remembered per
+                    # reference day is wrong as soon as the time of day matters)
+                    t0_ = parse_ts(e["ts"]) if "ts" in e else workload.ref_time(r, 2016, 2043)
+                    e["ts"] = fmt_ts(t0_.replace(hour=r.choice([0, 5, 9, 13, 18, 23]),
+                                                 minute=r.choice([0, 30, 59])))
                 elif v < 0.7:
                     # the same text under another scorer
                     e["scorer"] = r.choice(["dummy", "shipped_explicit", None,
